@@ -99,7 +99,7 @@ class FnTr:
         return f"({fn} {fa} {fb})", "F"
 
     def expr(self, n, env):
-        key = ast.unparse(n) if isinstance(n, (ast.Attribute, ast.Subscript, ast.Call)) else None
+        key = ast.unparse(n) if isinstance(n, (ast.Attribute, ast.Subscript, ast.Call, ast.BinOp)) else None
         if key is not None and key in self.consts:
             e, t = self.consts[key]
             return (f"({e} = true)" if t == "B" else e), t
@@ -225,7 +225,7 @@ class FnTr:
         if f == "fmod" and len(args) == 2:
             (a, ta), (b, tb) = args
             return f"(pyFmod {self.toF(a, ta)} {self.toF(b, tb)})", "F"
-        if f == "fabs" and len(args) == 1:
+        if f in ("fabs", "abs") and len(args) == 1:
             return f"(pyAbs {self.toF(*args[0])})", "F"
         if f == "sign" and len(args) == 1:
             return f"(pySign {self.toF(*args[0])})", "F"
@@ -337,6 +337,13 @@ class FnTr:
                 e = f"decide {e}" if t == "B" else e
                 env2 = dict(env, **{tg.id: t})
                 return f"let {self.v(tg.id)} : {lean_ty(t)} := {e};\n{pad}" + self.block(rest, env2, tail, ind)
+            if isinstance(tg, ast.Tuple) and isinstance(s.value, ast.Tuple) and len(tg.elts) == len(s.value.elts):
+                # a, b = x, y  (the right-hand sides are evaluated first: none of them may mention a target)
+                names = {el.id for el in tg.elts}
+                if any(isinstance(x, ast.Name) and x.id in names for v in s.value.elts for x in ast.walk(v)):
+                    raise Unsupported("swap-style tuple assignment")
+                seq = [ast.Assign(targets=[ast.Name(id=el.id, ctx=ast.Store())], value=v) for el, v in zip(tg.elts, s.value.elts)]
+                return self.block(seq + rest, env, tail, ind)
             if isinstance(tg, ast.Tuple):
                 e, t = self.expr(s.value, env)
                 if not isinstance(t, tuple) or len(t) != len(tg.elts):
@@ -465,7 +472,9 @@ def find_def(tree, qual):
     return node
 
 
-XKNOWN = {"fpe_equals": ("RV.Generated.Maths.fpe_equals", ["F", "F"], "B")}
+XKNOWN = {"fpe_equals": ("RV.Generated.Maths.fpe_equals", ["F", "F"], "B"),
+          "wrapAngleNegPiPi": ("RV.Generated.Maths.wrapAngleNegPiPi", ["F"], "F"),
+          "wrapAngle2Pi": ("RV.Generated.Maths.wrapAngle2Pi", ["F"], "F")}
 
 CONSTS = {
     "const.TWOPI": ("RV.Generated.TWOPI", "F"),
@@ -509,6 +518,23 @@ TARGETS = {
               "params": [("base_ok", "B"), ("base_reason", "S"), ("range_", "F"), ("max_range_to", "F")],
               "consts": {"super().isVisible": ("(base_ok, base_reason)", ("B", "S")), "getRange": ("range_", "F"),
                          "self.maximumRangeTo": ("max_range_to", "F")}}),
+        ],
+    },
+    "Geometry": {
+        "file": "physics/sensor_utils.py",
+        "mode": "exact",
+        "imports": ["RV.Generated.Maths"],
+        "fns": [
+            ("lineOfSight", "lineOfSight", {"eci_position_1": "-", "eci_position_2": "-"}, 0,
+             {"params": [("d12", "F"), ("n1sq", "F"), ("n2sq", "F"), ("R2", "F")],
+              "consts": {"dot(eci_position_1, eci_position_2)": ("d12", "F"), "norm(eci_position_1) ** 2": ("n1sq", "F"),
+                         "norm(eci_position_2) ** 2": ("n2sq", "F"), "Earth.radius ** 2": ("R2", "F")}}),
+            ("RectangularFoV.inFieldOfView", "rectInFieldOfView", {"self": "-", "pointing_sez": "-", "background_sez": "-"}, 0,
+             {"file": "sensors/field_of_view.py",
+              "params": [("az_p", "F"), ("el_p", "F"), ("az_b", "F"), ("el_b", "F"), ("az_full", "F"), ("el_full", "F")],
+              "consts": {"getAzimuth(pointing_sez)": ("az_p", "F"), "getElevation(pointing_sez)": ("el_p", "F"),
+                         "getAzimuth(background_sez)": ("az_b", "F"), "getElevation(background_sez)": ("el_b", "F"),
+                         "self.azimuth_angle": ("az_full", "F"), "self.elevation_angle": ("el_full", "F")}}),
         ],
     },
     "Agents": {
